@@ -103,7 +103,7 @@ class Concretizer:
     def postponed_env(self, info):
         """None when the input's defining function is compiled eagerly under the model; otherwise the globals of
         a function compiled with ``from __future__ import annotations``: its annotation expressions are the names
-        A<raw> and evaluate (in ITS globals) to the object evalin(raw, f) of the model, encoded as ('obj', k)"""
+        A<raw> and evaluate (in ITS globals) to the object evalin(raw, f) of the model (same value space as eager annotation objects)"""
         post = getattr(info, 'postponed', None)
         if post is None or not self.boolean(post):
             return None
@@ -113,7 +113,7 @@ class Concretizer:
             if self.boolean(mv.has):
                 raw = self.val(mv.val)
                 den = self.val(sym.EVALIN(mv.val, info.funcs[0].t))
-                g[ann_name(raw)] = ('obj', den)
+                g[ann_name(raw)] = den
         return g
 
     def build_sig(self, info, with_depth=True):
